@@ -27,6 +27,13 @@ type CacheBackend interface {
 	Exists(ctx context.Context, path string, key string) (bool, error)
 }
 
+// FullyStoredChecker can be implemented by backends that are made up of several stores.
+// IsFullyStored reports whether every store holds the key, i.e. whether a write can be skipped
+// without leaving one of the stores behind.
+type FullyStoredChecker interface {
+	IsFullyStored(ctx context.Context, path string, key string) (bool, error)
+}
+
 func GetCacheBackend(
 	ctx context.Context,
 	cacheConfig config.CacheConfig,
